@@ -14,28 +14,28 @@ char *__real_strdup(const char *); char *__real_strndup(const char *, size_t); F
 char *__real_setlocale(int, const char *); int __real_vasprintf(char **, const char *, va_list);
 void __real_xrl_set_error_literal(xrl_error **, xrl_error_code, const char *);
 void __real_xrl_propagate_error(xrl_error **, xrl_error *);
-void *__wrap_malloc(size_t n) { void *p = __real_malloc(n); if (p) { W_live++; W_allocs++; } return p; }
-void *__wrap_calloc(size_t a, size_t b) { void *p = __real_calloc(a, b); if (p) { W_live++; W_allocs++; } return p; }
-void *__wrap_realloc(void *o, size_t n) { void *p = __real_realloc(o, n); if (!o && p) { W_live++; W_allocs++; } return p; }
-void __wrap_free(void *p) { if (p) W_live--; __real_free(p); }
-char *__wrap_strdup(const char *s) { char *p = __real_strdup(s); if (p) { W_live++; W_allocs++; } return p; }
-char *__wrap_strndup(const char *s, size_t n) { char *p = __real_strndup(s, n); if (p) { W_live++; W_allocs++; } return p; }
-int __wrap_vasprintf(char **out, const char *fmt, va_list ap) { int r = __real_vasprintf(out, fmt, ap); if (r >= 0) { W_live++; W_allocs++; } return r; }
-FILE *__wrap_fopen(const char *a, const char *b) { FILE *f = __real_fopen(a, b); if (f) { W_files++; W_fopens++; } return f; }
-int __wrap_fclose(FILE *f) { W_files--; return __real_fclose(f); }
-char *__wrap_setlocale(int c, const char *l) { if (l) W_setlocale++; return __real_setlocale(c, l); }
+void *__wrap_malloc(size_t n) { void *p = __real_malloc(n); if (p) { __atomic_add_fetch(&W_live, 1, __ATOMIC_RELAXED); __atomic_add_fetch(&W_allocs, 1, __ATOMIC_RELAXED); } return p; }
+void *__wrap_calloc(size_t a, size_t b) { void *p = __real_calloc(a, b); if (p) { __atomic_add_fetch(&W_live, 1, __ATOMIC_RELAXED); __atomic_add_fetch(&W_allocs, 1, __ATOMIC_RELAXED); } return p; }
+void *__wrap_realloc(void *o, size_t n) { void *p = __real_realloc(o, n); if (!o && p) { __atomic_add_fetch(&W_live, 1, __ATOMIC_RELAXED); __atomic_add_fetch(&W_allocs, 1, __ATOMIC_RELAXED); } return p; }
+void __wrap_free(void *p) { if (p) __atomic_sub_fetch(&W_live, 1, __ATOMIC_RELAXED); __real_free(p); }
+char *__wrap_strdup(const char *s) { char *p = __real_strdup(s); if (p) { __atomic_add_fetch(&W_live, 1, __ATOMIC_RELAXED); __atomic_add_fetch(&W_allocs, 1, __ATOMIC_RELAXED); } return p; }
+char *__wrap_strndup(const char *s, size_t n) { char *p = __real_strndup(s, n); if (p) { __atomic_add_fetch(&W_live, 1, __ATOMIC_RELAXED); __atomic_add_fetch(&W_allocs, 1, __ATOMIC_RELAXED); } return p; }
+int __wrap_vasprintf(char **out, const char *fmt, va_list ap) { int r = __real_vasprintf(out, fmt, ap); if (r >= 0) { __atomic_add_fetch(&W_live, 1, __ATOMIC_RELAXED); __atomic_add_fetch(&W_allocs, 1, __ATOMIC_RELAXED); } return r; }
+FILE *__wrap_fopen(const char *a, const char *b) { FILE *f = __real_fopen(a, b); if (f) { __atomic_add_fetch(&W_files, 1, __ATOMIC_RELAXED); __atomic_add_fetch(&W_fopens, 1, __ATOMIC_RELAXED); } return f; }
+int __wrap_fclose(FILE *f) { __atomic_sub_fetch(&W_files, 1, __ATOMIC_RELAXED); return __real_fclose(f); }
+char *__wrap_setlocale(int c, const char *l) { if (l) __atomic_add_fetch(&W_setlocale, 1, __ATOMIC_RELAXED); return __real_setlocale(c, l); }
 /* an attempt to store an error over an existing one is what C03 forbids: count it at the three places that store */
 void __wrap_xrl_set_error_literal(xrl_error **err, xrl_error_code code, const char *msg) {
-  W_sets++; if (!err) W_sets_null++; if (err && *err) W_over++;
+  __atomic_add_fetch(&W_sets, 1, __ATOMIC_RELAXED); if (!err) __atomic_add_fetch(&W_sets_null, 1, __ATOMIC_RELAXED); if (err && *err) __atomic_add_fetch(&W_over, 1, __ATOMIC_RELAXED);
   __real_xrl_set_error_literal(err, code, msg);
 }
 void __wrap_xrl_set_error(xrl_error **err, xrl_error_code code, const char *fmt, ...) {
   char *buf = NULL; va_list ap; va_start(ap, fmt); int r = __real_vasprintf(&buf, fmt, ap); va_end(ap);
-  W_sets++; if (!err) W_sets_null++; if (err && *err) W_over++;
+  __atomic_add_fetch(&W_sets, 1, __ATOMIC_RELAXED); if (!err) __atomic_add_fetch(&W_sets_null, 1, __ATOMIC_RELAXED); if (err && *err) __atomic_add_fetch(&W_over, 1, __ATOMIC_RELAXED);
   __real_xrl_set_error_literal(err, code, r >= 0 ? buf : "");
   __real_free(buf);
 }
 void __wrap_xrl_propagate_error(xrl_error **dest, xrl_error *src) {
-  if (dest && *dest) W_over++;
+  if (dest && *dest) __atomic_add_fetch(&W_over, 1, __ATOMIC_RELAXED);
   __real_xrl_propagate_error(dest, src);
 }
